@@ -34,6 +34,13 @@ def run_property(prop_id: str, tier: str, root: str, seed: int,
                     'sa/alpha.py (' + ', '.join(
                         f'{q}: {a}' for _, q, a, b in
                         idx.compares_mirrored[:5]) + ')')
+            rep.count('index.ifs_turned', len(idx.ifs_turned))
+            if idx.ifs_turned:
+                rep.notes.append(
+                    f'{len(idx.ifs_turned)} if/else statements have their '
+                    'branches the other way round than when the rules were '
+                    'written and are analysed turned back (`if not c: B '
+                    'else: A` as `if c: A else: B`), see sa/alpha.py')
             if idx.alpha_renamed:
                 eg = ', '.join(f'{q}: {a} analysed as {b}'
                                for _, q, a, b in idx.alpha_renamed[:5])
